@@ -200,6 +200,17 @@ pub fn gen_c18(em: &mut Emitter, rng: &mut Rng) {
         claims.push(RevocationClaim::from(rand_utf8(rng, 10)).into());
         claims.push(RevocationClaim::from(hex::encode(rng.bytes(8))).into()); // 16 ASCII bytes
     }
+    // texts that need escaping or look like another representation, in every string-carrying claim type
+    for t in ["", "\"", "\\", "a\"b", "line 1\nline 2", "tab\there", "\u{0}", "\u{1f}", "\u{7f}", "é\"", "{\"k\":1}", "cafe", "00", " a ", "a\r\n", "\u{2028}"] {
+        claims.push(HashedClaim::from(t).into());
+        let mut h = HashedClaim::from(t.as_bytes().to_vec());
+        h.print_friendly = false;
+        claims.push(h.into());
+        claims.push(RevocationClaim::from(t).into());
+        if t.len() < 200 {
+            claims.push(EnumerationClaim { dst: t.to_string(), value: 1, total_values: 3 }.into());
+        }
+    }
     let totals: Vec<usize> = vec![0, 1, 2, 3, 255, 256, 65535, 65536, 65537, 65539, u32::MAX as usize, usize::MAX];
     for _ in 0..em.n(150, 2500) {
         let dst: String = if rng.chance(1, 8) {
@@ -276,6 +287,18 @@ pub fn gen_c18(em: &mut Emitter, rng: &mut Rng) {
             }
             Out::Panic(m) => em.violation("to-text-panic", format!("to_text({}) panicked: {}", cs, m), json!({"claim": cs})),
             Out::Err => {}
+        }
+        // JSON form (the other textual representation): decodes back to the same claim
+        em.oracle_case(&format!("json {}", cs));
+        match call(|| serde_json::to_string(c)) {
+            Out::Ok(js) => match call(|| serde_json::from_str::<ClaimData>(&js)) {
+                Out::Ok(b) if claim_str(&b) == cs && b.to_scalar() == s1 => {}
+                Out::Ok(b) => em.violation("json-roundtrip", format!("from_json(to_json({})) = {}", cs, claim_str(&b)), json!({"claim": cs, "json": js})),
+                Out::Err => em.violation("json-roundtrip", format!("from_json(to_json({})) = Err", cs), json!({"claim": cs, "json": js})),
+                Out::Panic(m) => em.violation("json-roundtrip-panic", format!("from_json(to_json({})) panicked: {}", cs, m), json!({"claim": cs, "json": js})),
+            },
+            Out::Panic(m) => em.violation("to-json-panic", format!("to_json({}) panicked: {}", cs, m), json!({"claim": cs})),
+            Out::Err => em.violation("json-roundtrip", format!("to_json({}) = Err", cs), json!({"claim": cs})),
         }
         // byte codec
         let bytes = c.to_bytes();
